@@ -6,9 +6,9 @@
    what remains unproved (overlapping roots on the read side, fs.RootPath's own Lstat calls, which
    are refuted) is listed in props/C14.json. *)
 From Coq Require Import List NArith Bool.
-From FS Require Import Sx Model.Path Model.Fs Model.RootPath Model.CopyFs Model.CopyFsSpec
+From FS Require Import Sx Model.Path Model.Fs Model.RootPath Model.CopyFs Model.CopyFsSpec Model.CopyFsMeta
   Proofs.Lex Proofs.PathP Proofs.CleanP Proofs.RootPathP Proofs.RootPathWitnessP Proofs.CopyContainedP
-  Proofs.CopyFsWitnessP.
+  Proofs.CopyFsWitnessP Proofs.CopyFsMetaP.
 Import ListNotations.
 
 (* Whatever the argument (any number of "..", empty components, dots, separators), the
@@ -180,6 +180,27 @@ Theorem copy_reads_inside :
 Proof. exact copy_reads_inside_proof. Qed.
 Print Assumptions copy_reads_inside.
 
+(* Overlapping roots (srcRoot = dstRoot, or dstRoot below srcRoot): the tree below srcRoot changes
+   during the copy, and copy_reads_inside in its present form does not apply.  What is static whatever
+   the roots: a directory that existed before and is reached from any directory a through real
+   directories after the copy (any state of the invariant) was reached from a by the same names
+   initially — the copier never links or moves an old directory, and the directories it creates
+   contain no old ones.  So an old directory found below srcRoot was below srcRoot from the start.
+   (The guarantee for the reads themselves, "of the inodes that existed before, the copier reads only
+   those at or below srcRoot", is checked on every run of kind 1404, overlapping roots included; its
+   proof for overlapping roots is listed as unproved in props/C14.json.) *)
+Theorem copy_old_dirs_static :
+  forall fuel c o osl scs src dcs dst matches f0 dr sr s' res,
+    fs_wf f0 ->
+    forallb name_ok dcs = true -> chain f0 (c_root c) dcs dr -> (length dcs < rfuel)%nat ->
+    forallb name_ok scs = true -> chain f0 (c_root c) scs sr -> (length scs < rfuel)%nat ->
+    (scs = dcs \/ ~ inside_dir f0 dr sr) ->
+    has_nul src = false -> (forall l, matches = Some l -> forallb (fun m => negb (has_nul m)) l = true) ->
+    copy_top fuel c o osl (render scs) src (render dcs) dst matches (cst_init f0) = (s', res) ->
+    forall a ns d, chain (s_fs s') a ns d -> (d < f_next f0)%N -> chain f0 a ns d.
+Proof. exact copy_old_dirs_static_proof. Qed.
+Print Assumptions copy_old_dirs_static.
+
 (* A symlink met at a target name "<dstRoot>/cs/x" (cs real directories) is never traversed:
    ensureEmptyFileTarget (non-directory source) unlinks it — the name is gone, the link inode and
    whatever it points to untouched — and copyDirectoryOnly (directory source) reports the conflict
@@ -201,6 +222,27 @@ Proof.
   - intros fi ow s' r. exact (dest_symlink_reported c f0 dr dcs cs x d i t m W H1 H2 H3 H4 H5 H6 H7 H8 fi ow s' r).
 Qed.
 Print Assumptions dest_symlink_never_followed_partial.
+
+(* The metadata calls.  The copier model changes ownership, times and xattrs only through
+   sys_lchown / sys_utimens / sys_lsetxattr (in the real code: os.Lchown, utimensat with
+   AT_SYMLINK_NOFOLLOW, LSetxattr), and each of these changes nothing but the inode the path names
+   WITHOUT following a final symlink.  chmod, which follows, is behind a "not a symlink" guard:
+   copyFileInfo of a symlink source is exactly Lchown + no-follow Utimes (no chmod), and
+   copyDirectoryOnly, which chmods an existing destination directory, reports a symlink found there
+   and changes nothing.  (The flavours of the REAL calls are compared with this by kind 1405, which
+   runs copy.Copy under strace.) *)
+Theorem metadata_calls_nofollow :
+  (forall c f p u g f' r, sys_lchown c f p u g = (f', r) -> nofollow_call c f p f') /\
+  (forall c f p t f' r, sys_utimens c f p t = (f', r) -> nofollow_call c f p f') /\
+  (forall c f p k v f' r, sys_lsetxattr c f p k v = (f', r) -> nofollow_call c f p f') /\
+  (forall c o fi name, kind_is_link fi = true ->
+     forall s, copy_file_info c o fi name s = copy_file_info_link c o fi name s) /\
+  (forall c dst fi ow s i t m,
+     snd (sys_lstat c (s_fs s) dst) = RStat i {| i_kind := KLink t; i_meta := m |} ->
+     exists e, copy_directory_only c dst fi ow s =
+               ({| s_fs := s_fs s; s_links := s_links s; s_parents := s_parents s; s_reads := s_reads s |}, inr e)).
+Proof. exact metadata_calls_nofollow_proof. Qed.
+Print Assumptions metadata_calls_nofollow.
 
 (* non-vacuity: the witness of the hard-link-path escape on the model of the repaired code.
    /o/h (inode 3, mode 0600) is outside; Copy("/s", "?/?" = p/h q/h r/g, "/d", "/") succeeds, the
